@@ -484,6 +484,11 @@ func (d *verifC14Driver) op(op string) error {
 			return errors.New("bad op")
 		}
 		d.threshold = time.Now()
+	case "tt":
+		// marker for the oracle: probe answers in this case are truthful
+		if op != "tt" {
+			return errors.New("bad op")
+		}
 	case "sy":
 		if len(a) != 2 {
 			return errors.New("bad op")
